@@ -95,7 +95,7 @@ var (
 var idAlphabet = []string{"-", ".", "_", "a", "b", "0", "1", "é"}
 
 // values of the unique index: their order differs from the order of the IDs that carry them
-var uniqPool = []string{"k0", "k1", "k10", "k2", "k-", "k.", "k_", "ka", "kA", "kb"}
+var uniqPool = []string{"k0", "k1", "k10", "k2", "k-", "k.", "k_", "ka", "kA", "kb", ""}
 
 // values of the non-unique index: RFC3339 dates (what services/replay uses) or short tokens
 var secPools = [][]string{
